@@ -104,6 +104,20 @@ move=> sn0 ne; rewrite bls_accept_iff -subr_eq0 -scalerBr scaler_eq0 (negbTE sn0
 by rewrite eq_sym (negbTE ne).
 Qed.
 
+(* the aggregate depends on the multiset of (signer, share) PAIRS only: handing the pairs over in another order changes
+   nothing (while re-pairing shares and signers does: bls_assignment below) *)
+Theorem bls_aggregate_perm (ps ps' : seq (nat * G1)) :
+  perm_eq ps ps' ->
+  bls_aggregate (unzip1 ps) (unzip2 ps) = bls_aggregate (unzip1 ps') (unzip2 ps').
+Proof.
+move=> pp; rewrite /bls_aggregate !combineE !zip_unzip.
+have pts_perm : perm_eq (pts F (unzip1 ps)) (pts F (unzip1 ps')) by rewrite /pts /unzip1 !perm_map.
+have -> : \sum_(p <- ps) lagrange0 (pts F (unzip1 ps)) (p.1)%:R *: p.2
+        = \sum_(p <- ps) lagrange0 (pts F (unzip1 ps')) (p.1)%:R *: p.2.
+  by apply: eq_bigr => p _; rewrite /lagrange0 (perm_big _ pts_perm).
+exact: perm_big.
+Qed.
+
 (* ---- threshold ---- *)
 Variables (N t : nat).
 Hypothesis natF_inj : forall i j : nat, (i <= N)%N -> (j <= N)%N -> i%:R = j%:R :> F -> i = j.
